@@ -9,8 +9,7 @@ use std::collections::{BTreeMap, BTreeSet};
 
 use cosmwasm_std::{Empty, Order};
 use marketplace::state::{
-    listingz, Bucket, FeeDenom, GenericBalance, Listing, Status, BUCKETS, BUCKET_ID_USED, FEE_DENOM,
-    LISTING_ID_USED, ROYALTY_REGISTRY,
+    listingz, Bucket, FeeDenom, GenericBalance, Listing, Status, BUCKETS, FEE_DENOM, ROYALTY_REGISTRY,
 };
 
 use crate::chain::{dec_u128, CStore, Chain};
@@ -164,8 +163,6 @@ pub struct RegEntry {
 pub struct Obs {
     pub listings: Vec<LRec>,
     pub buckets: Vec<BRec>,
-    pub listing_used: BTreeSet<u64>,
-    pub bucket_used: BTreeSet<u64>,
     /// (is_usdc, last switch seconds as stored)
     pub fee_usdc: bool,
     pub fee_last: u64,
@@ -185,8 +182,6 @@ impl Obs {
         Obs {
             listings: vec![],
             buckets: vec![],
-            listing_used: BTreeSet::new(),
-            bucket_used: BTreeSet::new(),
             fee_usdc: false,
             fee_last: 0,
             registry_addr: None,
@@ -299,10 +294,6 @@ pub fn observe(chain: &Chain, names: &Names) -> Obs {
         let ((owner, id), b) = r.expect("observe: bucket decode");
         buckets.push(brec(owner.to_string(), id, b));
     }
-    let listing_used: BTreeSet<u64> =
-        LISTING_ID_USED.keys(&mstore, None, None, Order::Ascending).map(|k| k.expect("used key")).collect();
-    let bucket_used: BTreeSet<u64> =
-        BUCKET_ID_USED.keys(&mstore, None, None, Order::Ascending).map(|k| k.expect("used key")).collect();
     let (fee_usdc, fee_last) = match FEE_DENOM.load(&mstore).expect("observe: fee item") {
         FeeDenom::JUNO(t) => (false, t),
         FeeDenom::USDC(t) => (true, t),
@@ -375,8 +366,6 @@ pub fn observe(chain: &Chain, names: &Names) -> Obs {
     Obs {
         listings,
         buckets,
-        listing_used,
-        bucket_used,
         fee_usdc,
         fee_last,
         registry_addr,
